@@ -278,8 +278,11 @@ def _run_mapping(config, tmp_dir, tmp_result_dir, log):
 
     # ========= query marker cache =========
 
+    # if there is no tmp_dir, write the marker cache into the run's
+    # private result buffer directory (which run_mapping removes) rather
+    # than leaving it behind in the system temp directory
     query_marker_tmp = pathlib.Path(
-        mkstemp_clean(dir=tmp_dir,
+        mkstemp_clean(dir=tmp_dir if tmp_dir is not None else tmp_result_dir,
                       prefix='query_marker_',
                       suffix='.h5'))
 
